@@ -269,6 +269,62 @@ func concChild(args []string) error {
 		sort.Slice(calls, func(i, j int) bool { return calls[i].Inv < calls[j].Inv })
 		w.write(map[string]any{"op": "HIST", "sid": sid, "initial": initial, "calls": calls, "hooks": len(all)})
 	}
+	// stress: lookups and writes racing with register / unregister of the same format, many times; any lookup
+	// that returns neither a driver nor an error, and any panic, is counted
+	for round := 0; round < 3; round++ {
+		f := vfmt("stress")
+		var wNilNil, rNilNil, panics, writes int64
+		stop := make(chan struct{})
+		flipperDone := make(chan struct{})
+		go func() {
+			defer close(flipperDone)
+			for {
+				select {
+				case <-stop:
+					return
+				default:
+				}
+				writer.RegisterSerializer(f, &fakeSer{id: "s"})
+				reader.RegisterUnserializer(f, &fakeUnser{id: "d"})
+				runtime.Gosched()
+				writer.UnregisterSerializer(f)
+				reader.UnregisterUnserializer(f)
+			}
+		}()
+		var lookers sync.WaitGroup
+		for g := 0; g < 3; g++ {
+			lookers.Add(1)
+			go func() {
+				defer lookers.Done()
+				for i := 0; i < 30000; i++ {
+					func() {
+						defer func() {
+							if recover() != nil {
+								atomic.AddInt64(&panics, 1)
+							}
+						}()
+						if s, err := writer.GetFormatSerializer(f); err == nil && s == nil {
+							atomic.AddInt64(&wNilNil, 1)
+						}
+						if u, err := reader.GetFormatUnserializer(f); err == nil && u == nil {
+							atomic.AddInt64(&rNilNil, 1)
+						}
+						if i%50 == 0 {
+							var buf bytes.Buffer
+							if writer.New().WriteStreamWithOptions(tinyDoc(), nopCloser{&buf}, &writer.Options{Format: f}) == nil {
+								atomic.AddInt64(&writes, 1)
+							}
+							reader.New().ParseStreamWithOptions(bytes.NewReader([]byte("{}")), &reader.Options{Format: f}) //nolint:errcheck
+						}
+					}()
+				}
+			}()
+		}
+		lookers.Wait()
+		close(stop)
+		<-flipperDone
+		w.write(map[string]any{"op": "STRESS", "sid": 1000 + round, "writer_nilnil": wNilNil, "reader_nilnil": rNilNil, "panics": panics, "writes": writes})
+	}
 	return nil
 }
 
